@@ -184,6 +184,16 @@ def write_tiling(fb, fn):
                 if lm.get("k") == "lambda":
                     lambdas[d] = lm
 
+        def count_helper(n):
+            r = strip_all_casts(n["r"])
+            g = fb.resolve_call(r) if r.get("k") == "call" else None
+            if g is None or g.body is None or g.key == fn.key or not r.get("args") or not g.params or not g.cfg_raw or not g.raw.get("inrepo"):
+                return None
+            if g.params[0]["t"].get("k") != "ptr" or g.params[0]["t"].get("pconst") or (g.raw.get("rett") or {}).get("k") != "int":
+                return None
+            sub = _helper_tiling(fb, g)
+            return (g, sub) if sub else None
+
         def handle_(n, depth):
             k = n.get("k")
             prev_end, first = state["prev_end"], state["first"]
@@ -224,6 +234,26 @@ def write_tiling(fb, fn):
                 sval.pop(strip_all_casts(n["l"])["decl"], None)
             elif k == "un" and n.get("op") in ("pre++", "post++", "pre--", "post--") and strip_all_casts(n["e"]).get("decl") in sval:
                 sval.pop(strip_all_casts(n["e"])["decl"], None)
+            elif k == "cassign" and n.get("op") == "+" and strip_all_casts(n["l"]).get("decl") in pos and count_helper(n) is not None:
+                # `cursor += helper(cursor, ..)`: a helper that writes from its pointer argument and returns how many bytes it wrote
+                d = strip_all_casts(n["l"])["decl"]
+                r = strip_all_casts(n["r"])
+                g, sub = count_helper(n)
+                for so in sub:
+                    out.append(("%s:%s" % (g.name.split("::")[-1], so[0]),) + tuple(so[1:]))
+                start = lin(r["args"][0])
+                key = "helper@%s" % (n.get("loc") or "").split(":", 1)[-1]
+                ok = start is not None and eq(start, pos[d]) and all(so[2] for so in sub) and any(so[0].startswith("returns-count") for so in sub) and \
+                    ((first and hdr is not None and eq(start, {"D": 1, 1: hdr})) or (first and bool(ptr_params) and eq(start, {"P": 1, 1: 0})) or
+                     (not first and eq(start, prev_end)))
+                out.append((key, n.get("loc"), ok, "%s continues at %s and the cursor moves by the count it returns" % (g.name.split("::")[-1], fmt(start)),
+                            "%s is handed position %s (cursor at %s) but the previous write ended at %s: bytes in between keep whatever the buffer held" %
+                            (g.name.split("::")[-1], fmt(start), fmt(pos[d]), fmt(prev_end) if not first else "sizeof(Header)")))
+                sym = "after(%s@%s)" % (g.name.split("::")[-1], (n.get("loc") or "").split(":")[1] if n.get("loc") else n["id"])
+                pos[d] = {sym: 1, 1: 0}
+                state["prev_end"] = prev_end = pos[d]
+                state["first"] = first = False
+                state["last_write"] = n
             elif k == "cassign" and n.get("op") in ("+", "-") and strip_all_casts(n["l"]).get("decl") in pos:
                 d = strip_all_casts(n["l"])["decl"]
                 f = lin(n["r"])
@@ -318,6 +348,13 @@ def write_tiling(fb, fn):
                 key = "final-size@%s" % (n.get("loc") or "").split(":", 1)[-1]
                 out.append((key, n.get("loc"), eq(amount, want), "final size %s = end of the last write" % fmt(amount),
                             "the payload is finally sized to %s but the last write ended at %s" % (fmt(amount), fmt(want))))
+            elif k == "return" and n.get("e") is not None and ptr_params and (fn.raw.get("rett") or {}).get("k") == "int" and not first and \
+                    lin(n["e"]) is not None and not any(kk in ("D", "P") for kk, v in lin(n["e"]).items() if v):
+                # a helper that answers how many bytes it wrote: the count is the distance from its pointer parameter to the end of its last write
+                rv = lin(n["e"])
+                key = "returns-count@%s" % (n.get("loc") or "").split(":", 1)[-1]
+                out.append((key, n.get("loc"), eq(add(rv, {"P": 1}), prev_end), "returns %s, the distance to the end of its last write" % fmt(rv),
+                            "returns the count %s but its last write ended at %s" % (fmt(rv), fmt(prev_end))))
             elif k == "return" and n.get("e") is not None and ptr_params and (strip_all_casts(n["e"]).get("t") or {}).get("k") == "ptr":
                 rv = lin(n["e"])
                 key = "returns-end@%s" % (n.get("loc") or "").split(":", 1)[-1]
@@ -358,7 +395,10 @@ def rule_reader_exact(fb, res):
         # the value read from the length field: locals initialised from a dereference of the pointer
         lens = set()
         for d, es in local_defs(g).items():
-            if any(x.get("k") == "un" and x.get("op") == "*" and pdecl in reads(x) for e in es for x in walk(e)) and len(es) == 1:
+            # (a constant initialiser in front of the one real definition — `uint16_t length = 0;` filled in a branch or through an
+            # out-parameter of an inlined helper — is a placeholder, not a second source)
+            real = [e for e in es if const_value(e) is None]
+            if len(real) == 1 and any(x.get("k") == "un" and x.get("op") == "*" and pdecl in reads(x) for x in walk(real[0])):
                 lens.add(d)
         # ... or filled by a raw copy from the pointer (memcpy(&length, ptr, sizeof length)), possibly byte-swapped afterwards
         for c in g.calls():
